@@ -1,5 +1,6 @@
 import RModel.Driver.Util
 import RModel.Impl.Repr
+import RModel.Impl.BSI
 /-! Checker state and verdict helpers shared by all command families. -/
 namespace RModel.Driver
 open RModel
@@ -23,6 +24,7 @@ structure St where
   it64 : Std.HashMap String IterSt := {}      -- roaring64 iterators (own namespace on the Go side too)
   bsi : Std.HashMap String BsiSt := {}
   bufLen : Std.HashMap String Nat := {}       -- byte buffers known only by length
+  bsiL2 : Std.HashMap String (RModel.BSI × Bool) := {}    -- plane-level model of roaring64 BSIs (index, fixed-width?)
   zb : Std.HashMap String (String × BSet × Bool) := {}  -- protected caller-owned buffers: (kind, encoded set, alive)
   deriving Inhabited
 
